@@ -37,6 +37,7 @@ ASSUMPTIONS = ["yield points are source lines of the recoco hand-off "
                "(they never block here)"]
 REQUIRED = ["schedules", "distinct_interleavings", "preempting_schedules",
             "calllater_functions_checked", "wakes_checked", "sync_sections",
+            "sync_sections_that_take_longer_than_the_poll_interval",
             "lock_programs", "lock_waits", "threaded_hub_runs",
             "inline_hub_runs", "burst_handoffs",
             "handed_over_functions_that_raise", "handoffs_by_cooperative_tasks",
@@ -119,8 +120,13 @@ def run_scenario (scn, schedule, policy, seed):
     # the submission side of the hand-off at instruction granularity
     instr = [f.__code__ for f in (rc.CallLaterTask.callLater,
                                   rc.Scheduler.fast_schedule)]
+  clock = None
+  if scn.get("tick_nap"):
+    # waits of different lengths are released in the order of their deadlines
+    import types
+    clock = types.SimpleNamespace(now=0.0)
   ctl = ilv.Controller([c for c in _codes["c"] if c not in instr],
-                       schedule=schedule, policy=policy, rng=rng,
+                       schedule=schedule, policy=policy, rng=rng, clock=clock,
                        max_steps=60000, pct_points=pct, instr_codes=instr)
   shim = ilv.ThreadingShim(ctl)
   saved = (rc.threading, rc.Thread, rc.defaultScheduler, rc.select)
@@ -155,6 +161,7 @@ def run_scenario (scn, schedule, policy, seed):
       def run (self_):
         coop = list(scn.get("coop", ()))
         for i in range(scn.get("ticks", 6)):
+          if scn.get("ticks_stop_with_threads") and obs.get("foreign_done"): break
           order[0] += 1
           obs["log"].append(("step", "ticker", order[0]))
           if coop:
@@ -162,7 +169,7 @@ def run_scenario (scn, schedule, policy, seed):
             # wakes another task / hands a function over while foreign
             # threads do the same
             foreign_op("tk", coop.pop(0), seqs)
-          yield 0
+          yield scn.get("tick_nap", 0)
         yield False
     class Spinner (rc.BaseTask):
       # a task that is runnable all the time: a wake-up always finds it queued
@@ -278,10 +285,17 @@ def run_scenario (scn, schedule, policy, seed):
           state["wake_pending"] = True
           obs["pending_wake"] = True
           sched.schedule(sleeper)
-        elif op in ("sync", "sync2"):
+        elif op in ("sync", "sync2", "sync_long"):
           with sched.synchronized():
             order[0] += 1
             obs["log"].append(("enter", tag, order[0]))
+            if op == "sync_long":
+              # the section's work takes (virtual) seconds, every other
+              # thread has long run out of things to do meanwhile
+              state["long"] = state.get("long", 0) + 1
+              obs["long_sections"] = obs.get("long_sections", 0) + 1
+              ctl.block(lambda: False, 5.0, "work-in-section")
+              state["long"] -= 1
             if op == "sync2":
               with sched.synchronized():
                 order[0] += 1
@@ -302,6 +316,10 @@ def run_scenario (scn, schedule, policy, seed):
     sched = state.get("sched")
     if sched is None: return False
     if obs["phase"] == "work":
+      if state.get("long"):
+        # somebody is busy inside a synchronized section: that the others
+        # are waiting is what the section is for
+        return True
       hub = sched._selectHub
       try:
         stranded = not hub._incoming.empty()
@@ -428,6 +446,8 @@ def judge (scn, obs, fire, rep):
       fire("woken task ran more often than it was woken",
            "%d runs for %d wake-ups" % (runs - 1, nwake)); return
   # synchronized sections exclude task steps
+  for _ in range(obs.get("long_sections", 0)):
+    rep.count("sync_sections_that_take_longer_than_the_poll_interval")
   inside = {}
   for (kind, who, o) in sorted(obs["log"], key=lambda x: x[2]):
     if kind == "enter": inside[who] = o; rep.count("sync_sections")
@@ -514,6 +534,10 @@ SCENARIOS = [
   dict(threads=[["sync", "sync"], ["cl"]], threaded_hub=True, start_first=True, ticks=14),
   dict(threads=[["sync2", "sync"]], threaded_hub=False, start_first=True, ticks=14),
   dict(threads=[["sbatch", "sync"], ["cl"]], threaded_hub=True, start_first=True, exc="SystemExit", ticks=10),
+  dict(threads=[["sync_long"], ["sync_long"]], threaded_hub=True, start_first=True, ticks=40,
+       ticks_stop_with_threads=True, tick_nap=0.5),
+  dict(threads=[["sync_long", "cl"], ["cl", "sync_long"]], threaded_hub=False, start_first=True,
+       ticks=40, ticks_stop_with_threads=True, tick_nap=0.5),
 ]
 
 
